@@ -73,6 +73,11 @@ func genC16(t *rapid.T) C16Case {
 		}
 	}
 	c.Value = ref.S(b.String())
+	if rapid.IntRange(0, 24).Draw(t, "memberName") == 11 {
+		// a value that spells a member every JavaScript object has (a table keyed by values answers for these
+		// whether it was ever given them or not)
+		c.Value = ref.S(rapid.SampledFrom([]string{"constructor", "toString", "valueOf", "hasOwnProperty", "__proto__", "isPrototypeOf", "toLocaleString", "propertyIsEnumerable", "__defineGetter__", "prototype", "length", "name"}).Draw(t, "member"))
+	}
 	if (c.Dir == "escapeUri" || c.Dir == "escapeJsString") && rapid.IntRange(0, 5).Draw(t, "scalar") == 0 {
 		// the directives take any printable value: numbers print with signs, dots and exponents
 		c.Value = rapid.SampledFrom([]ref.Value{ref.I(0), ref.I(-7), ref.I(1 << 40), ref.F(1e21), ref.F(-6.02e23), ref.F(1.5e300), ref.F(1e-7), ref.F(2.5), ref.F(-0.5),
